@@ -20,13 +20,63 @@ const TOKENS: [&str; 21] = [
     "==", "<", ">=", ",", "f", " ",
 ];
 
+/// a nested object whose every `get` is again a choice point (over the scalar / array answers)
+pub struct AdvObj {
+    pub answers: Vec<Option<MVal>>,
+}
+impl tau_engine::Object for AdvObj {
+    fn get(&self, _key: &str) -> Option<Value<'_>> {
+        let c = tau_engine::verif::choose(self.answers.len() as u32) as usize;
+        self.answers[c].as_ref().map(|v| v.as_value())
+    }
+    fn keys(&self) -> Vec<std::borrow::Cow<'_, str>> {
+        vec![std::borrow::Cow::Borrowed("x")]
+    }
+    fn len(&self) -> usize {
+        1
+    }
+}
+
 pub struct AdvDoc {
     pub answers: Vec<Option<MVal>>,
+    pub nested: AdvObj,
+    pub nested_arr: Vec<AdvObj>,
+}
+impl AdvDoc {
+    pub fn new(answers: Vec<Option<MVal>>) -> Self {
+        let inner: Vec<Option<MVal>> = answers
+            .iter()
+            .filter(|a| !matches!(a, Some(MVal::Obj(_))))
+            .take(7)
+            .cloned()
+            .collect();
+        AdvDoc {
+            nested: AdvObj { answers: inner.clone() },
+            nested_arr: vec![AdvObj { answers: inner.clone() }, AdvObj { answers: inner }],
+            answers,
+        }
+    }
+    pub fn answer_name(&self, c: usize) -> String {
+        if c < self.answers.len() {
+            self.answers[c].as_ref().map(|v| v.show()).unwrap_or("absent".into())
+        } else if c == self.answers.len() {
+            "<adversarial object>".into()
+        } else {
+            "<array of adversarial objects>".into()
+        }
+    }
 }
 impl Document for AdvDoc {
     fn find(&self, _key: &str) -> Option<Value<'_>> {
-        let c = tau_engine::verif::choose(self.answers.len() as u32) as usize;
-        self.answers[c].as_ref().map(|v| v.as_value())
+        let n = self.answers.len();
+        let c = tau_engine::verif::choose(n as u32 + 2) as usize;
+        if c < n {
+            self.answers[c].as_ref().map(|v| v.as_value())
+        } else if c == n {
+            Some(Value::Object(&self.nested))
+        } else {
+            Some(Value::Array(&self.nested_arr))
+        }
     }
 }
 
@@ -164,10 +214,7 @@ fn torture(rule: &Rule, yaml_for_replay: &str, adv: &AdvDoc, bound: u32, cap: u6
             st.evaluations += 1;
             st.traces += 1;
             if let Err(msg) = res {
-                let ans: Vec<String> = trace
-                    .iter()
-                    .map(|(_, c)| adv.answers[*c as usize].as_ref().map(|v| v.show()).unwrap_or("absent".into()))
-                    .collect();
+                let ans: Vec<String> = trace.iter().map(|(a, c)| format!("{}/{}", c, a)).collect();
                 st.push_violation(Violation {
                     signature: format!("panic-in-matches:{}", msg.chars().take(50).collect::<String>()),
                     witness: format!(
@@ -194,7 +241,7 @@ pub fn run(tier: Tier) -> i32 {
     let th = tier.thorough();
     let adv_answers = answers(th);
     let bound = if th { 3 } else { 2 };
-    let cap = if th { 60000 } else { 4000 };
+    let cap = if th { 400000 } else { 40000 };
     // (a) every token string as a condition
     let tok_len = if th { 6 } else { 5 };
     let total = count_upto(TOKENS.len(), tok_len);
@@ -242,9 +289,7 @@ pub fn run(tier: Tier) -> i32 {
         .par_iter()
         .map(|(cond, r)| {
             let mut st = Stats::default();
-            let adv = AdvDoc {
-                answers: adv_answers.clone(),
-            };
+            let adv = AdvDoc::new(adv_answers.clone());
             let yaml = format!(
                 "detection:\n  A: {{f: x}}\n  B: [{{g: 1}}, {{f: ['a*', '?b']}}, {{n: {{x: '*a'}}}}, {{'all(h)': ['*a*', '*b*']}}, {{'int(f)': '>=1'}}, {{'str(g)': '1*'}}, {{h: null}}, {{h: true}}]\n  condition: {}\ntrue_positives: []\ntrue_negatives: []\n",
                 serde_json::to_string(cond).unwrap()
@@ -277,10 +322,8 @@ pub fn run(tier: Tier) -> i32 {
             let mut st = Stats::default();
             let yaml = spec.yaml();
             if let Ok(r) = eng::load(&yaml) {
-                let adv = AdvDoc {
-                    answers: adv_answers.clone(),
-                };
-                torture(&r, &yaml, &adv, bound.min(2), cap.min(6000), &mut st);
+                let adv = AdvDoc::new(adv_answers.clone());
+                torture(&r, &yaml, &adv, bound.min(2), cap, &mut st);
                 st.nontrivial += 1;
                 st.count("universe_rules_loaded", 1);
             }
